@@ -373,7 +373,7 @@ func (r *realm) onLeave(sess *wamp.Session, shutdown, killAll bool) {
 	}
 	<-sync
 
-	if shutdown || killAll {
+	if shutdown {
 		return
 	}
 	if hasTstm {
